@@ -83,6 +83,8 @@ func (f *Future[T]) PipeTo(forwarders vivid.ActorRefs) error {
 	f.mu.Lock()
 	if f.closed.Load() {
 		f.mu.Unlock()
+		// closed 先于结果字段（message/err）置位：必须等待 done 关闭后再读取结果，否则可能转发零值
+		<-f.done
 		f.tellForwarders(forwarders, f.message, f.err)
 		return nil
 	}
@@ -131,6 +133,11 @@ func (f *Future[T]) close(v any) {
 	f.forwarders = nil
 	f.mu.Unlock()
 	f.tellForwarders(toSend, f.message, f.err)
+}
+
+// IsClosed 返回 Future 是否已完成（已有应答、超时或被关闭）。
+func (f *Future[T]) IsClosed() bool {
+	return f.closed.Load()
 }
 
 func (f *Future[T]) Result() (T, error) {
